@@ -563,7 +563,7 @@ class TermBuilder:
             return ('callv', args[0], args[1:], (body.path, block))
         # Iterator::next(it) -> option of elem
         if c.name == 'next' and c.is_trait_method('Iterator'):
-            return ('next', elem_source(args[0]))
+            return ('next', elem_source(args[0], keep_hash=True))
         return ('call', key, args, (body.path, block))
 
     def _operand_ty(self, op):
@@ -670,9 +670,20 @@ class TermBuilder:
         return self.call_term(self.body.term(block), block)
 
 
-def elem_source(t):
-    """Strip iterator-source adaptors: into_iter(x), iter(x), cloned(x) -> x."""
+def _is_hash_iter(key):
+    c = CALLEES.get(key)
+    if c is None:
+        return False
+    tys = ' '.join([c.self_ty or ''] + list(c.args) + [c.raw.get('impl_self') or ''])
+    return ('HashMap<' in tys or 'HashSet<' in tys or 'hash::map::' in c.best or 'hash::set::' in c.best) and 'btree' not in c.best
+
+
+def elem_source(t, keep_hash=False):
+    """Strip iterator-source adaptors: into_iter(x), iter(x), cloned(x) -> x.
+    With keep_hash the iteration call over a std HashMap/HashSet is kept (its order is a property of interest)."""
     while isinstance(t, tuple) and t:
+        if keep_hash and t[0] == 'call' and _is_hash_iter(t[1]):
+            break
         if t[0] == 'call' and strip_generics(t[1]).split('::')[-1] in ITER_SOURCES and t[2]:
             t = t[2][0]
             continue
